@@ -12,7 +12,7 @@ META = {
     "title": "IRDL operation verification matches the operation definition",
     "category": "proof",
     "design_ref": "DESIGN.md §5 C10",
-    "lean_modules": ["XdslProofs.C10", "XdslProofs.C10Constraints", "XdslProofs.C10VerifyOp"],
+    "lean_modules": ["XdslProofs.C10", "XdslProofs.C10Constraints", "XdslProofs.C10VerifyOp", "XdslProofs.C10Storage"],
     "text": (
         "Lean theorems over XdslModel/OpDef.lean (model of verify_variadic_size, the ten accessor classes, "
         "irdl_build_arg_list/irdl_op_init and OpDef.verify's loops with one shared ConstraintContext, with the "
@@ -26,11 +26,23 @@ META = {
         "variable assignment), verifyArgList_iff/verifyRegions_iff and verifyOp_iff_assignment (the whole "
         "OpDef.verify passes exactly when all four lists split into declared segments, structural side "
         "conditions hold and one assignment satisfies every piece, property and attribute), "
-        "verifyOp_error_is_verify. The model is tied to /repo by generating IRDL operation classes at run time "
+        "verifyOp_error_is_verify; C10Storage: verifyOp_ignores_default / verifyOp_required_present / "
+        "deleted_required_prop_rejected / deleted_required_attr_rejected (a declared default_value never "
+        "relaxes verification: a non-optional property or attribute must be present, also after it was removed "
+        "from a constructed operation), verified_dict_accessors (the dictionary accessors never raise on a "
+        "verified operation), fillDefaults_present/_keeps/_only_defaults/_idem (__post_init__), "
+        "readSize_storeSizes / storeSizes_declared / buildOp_spec / buildOp_verifies_sizes / buildOp_accessors "
+        "(the constructor writes each segment-size array into the dictionary named by that option's own "
+        "as_property flag, which is where verification and the accessors read it, for every mix of storage "
+        "kinds and every option order; a built operation carries no undeclared property). "
+        "The model is tied to /repo by generating IRDL operation classes at run time "
         "with irdl_op_definition and comparing verify_()/accessor/build observations of the real classes with "
         "the Lean driver line by line, and with an independent brute-force segmenter and a declarative "
         "constraint oracle written from the property sentence; IRDL operations parsed from tests/**/*.mlir are "
-        "checked the same way (segment part)."
+        "checked the same way (segment part). Operation objects are observed after a HISTORY (construction, "
+        "which fills in default values, then deletions of dictionary entries) and judged on the state they "
+        "have at verification time; whole definitions are also built through the generated constructor with "
+        "every combination of options, per-option storage kinds and option orders."
     ),
     "technique": "Lean 4 proofs about a hand model + bounded-exhaustive/random differential correspondence with run-time generated IRDL operation classes + independent reference segmenter",
     "level_note": (
@@ -43,7 +55,12 @@ META = {
         "with one base constraint (as with a shared ClassVar). Definitions declaring BOTH SameVariadic…Size "
         "and AttrSized…Segments for the same construct are excluded (the sentence does not say which wins). "
         "A failing verification raising something other than VerifyException is not counted as a violation "
-        "of 'passes exactly when'."
+        "of 'passes exactly when'. A default_value is read as 'the constructor supplies it when the entry is "
+        "not given'; it does not make the definition optional. On an operation that verifies, the generated "
+        "property/attribute accessors are required to return the stored value (absent optional entry: the "
+        "declared default or None) -- the dictionary counterpart of 'accessors return exactly the declared "
+        "segments'. The model keeps the four segment-size entries (RawSizes) apart from the numbered "
+        "properties/attributes of the two dictionaries."
     ),
     "rule": (
         "seg: every kind list over {single,optional,variadic} up to the length bound × option × construct × "
@@ -51,13 +68,21 @@ META = {
         "length, missing, non-dense, i64), non-trivial = at least one variable segment and (for attr) a "
         "present dense attribute; build: every argument shape vector over {None, value, list of 0..3}, "
         "non-trivial = at least one variable segment; full: random definitions with constraints/variables/"
-        "properties/attributes/regions × random valid and mutated instances, non-trivial = a constraint "
-        "variable used at ≥2 sites or a segment-size attribute present; corpus: IRDL ops parsed from "
+        "properties/attributes (each optional or not, with or without default_value)/regions, options in random "
+        "order with a random as_property flag each × random valid and mutated instances (mutations include "
+        "deleting any declared or undeclared dictionary entry or size array after construction, and a size array "
+        "in the wrong dictionary) + constructor calls on the same definitions, non-trivial = a constraint "
+        "variable used at ≥2 sites or a segment-size attribute present or a deletion step; dict: every "
+        "{property, attribute} × {required, optional} × default {none, satisfying, violating} × {plain, variable "
+        "shared with a second entry} × constructor value {absent, satisfying, others} × {kept, deleted after "
+        "construction}; buildop: every assignment of {no option, same-size, attribute-sized as attribute, "
+        "attribute-sized as property} to the four constructs × option orders (quick: identity, reverse, one "
+        "random; thorough: all permutations) × two argument vectors; corpus: IRDL ops parsed from "
         "tests/**/*.mlir with ≥1 variable segment. Distinct = distinct (definition, instance) key."
     ),
     "trusted_base": [
         "correspondence harness harness/props/c10.py (differential, bounded-exhaustive + random)",
-        "hand-written Lean model XdslModel/OpDef.lean of xdsl/irdl/operations.py (segment sizes, accessors, builder, OpDef.verify loop)",
+        "hand-written Lean model XdslModel/OpDef.lean of xdsl/irdl/operations.py (segment sizes, accessors, builder, OpDef.verify loop, __post_init__ defaults, per-option storage of the size arrays)",
         "reference segmenter / declarative constraint oracle in harness/props/c10.py",
     ],
     "budget": {"quick": 100, "thorough": 1100},
@@ -190,8 +215,30 @@ def ref_pieces_ok(pieces: list[tuple[str, list[int]]]) -> bool:
     return all(len(s) <= 1 for s in var_vals.values()) and all(len(s) <= 1 for s in rvar_vals.values())
 
 
+def pa_entries(spec: dict, kindname: str):
+    """(name, optional, constraint, default) of the declared properties / attributes"""
+    for e in spec[kindname]:
+        yield e[0], e[1], e[2], (e[3] if len(e) > 3 else None)
+
+
+def in_props(spec: dict, c: str) -> bool:
+    """the size array of construct c is declared to live in op.properties"""
+    return spec[c]["opt"] == "attr" and bool(spec[c].get("as_prop"))
+
+
+def ref_fill(spec: dict, kindname: str, passed: dict) -> dict:
+    """what a default value means: a non-optional property/attribute that is not given when the
+    operation is constructed gets its default"""
+    d = dict(passed)
+    for name, optional, _c, default in pa_entries(spec, kindname):
+        if name not in d and not optional and default is not None:
+            d[name] = default
+    return d
+
+
 def ref_verify(spec: dict, inst: dict) -> tuple[bool, dict[str, Any]]:
-    """(passes, declared segments per construct or None)"""
+    """(passes, declared segments per construct or None) for the operation STATE `inst` (the
+    dictionaries as they are at verification time; defaults play no role here)"""
     segs: dict[str, Any] = {}
     ok = True
     pieces: list[tuple[str, list[int]]] = []
@@ -214,9 +261,12 @@ def ref_verify(spec: dict, inst: dict) -> tuple[bool, dict[str, Any]]:
                         ok = False
                     if blocks > 0:
                         pieces.append((rc, args))
+        # a size array kept in op.properties although the definition does not declare that property
+        if inst[c].get("stray") is not None and not in_props(spec, c):
+            ok = False
     for kindname in ("props", "attrs"):
-        defined = {name for name, _o, _c in spec[kindname]}
-        for name, optional, attrc in spec[kindname]:
+        defined = {name for name, _o, _c, _d in pa_entries(spec, kindname)}
+        for name, optional, attrc, _default in pa_entries(spec, kindname):
             if name in inst[kindname]:
                 pieces.append(("S:" + attrc, [inst[kindname][name]]))
             elif not optional:
@@ -226,6 +276,37 @@ def ref_verify(spec: dict, inst: dict) -> tuple[bool, dict[str, Any]]:
     if ok and not ref_pieces_ok(pieces):
         ok = False
     return ok, segs
+
+
+def ref_required_absent(spec: dict, inst: dict) -> list[str]:
+    return [f"{kindname[:-1]} {name}" for kindname in ("props", "attrs")
+            for name, optional, _c, _d in pa_entries(spec, kindname)
+            if not optional and name not in inst[kindname]]
+
+
+def ref_dict_access(spec: dict, inst: dict, kindname: str) -> str:
+    """accessor results on a verifying operation: the stored value; absent optional -> default / None"""
+    out = []
+    for name, optional, _c, default in pa_entries(spec, kindname):
+        if name in inst[kindname]:
+            out.append(str(inst[kindname][name]))
+        elif optional:
+            out.append("none" if default is None else str(default))
+        else:
+            out.append("absent")
+    return "|".join(out) if out else "-"
+
+
+def norm_inst(inst: dict) -> dict:
+    """JSON round trip turns the integer names of properties into strings"""
+    import copy
+    inst = copy.deepcopy(inst)
+    for kindname in ("props", "attrs"):
+        inst[kindname] = {int(k): v for k, v in inst[kindname].items()}
+    if "drop" in inst:
+        for kindname in ("props", "attrs"):
+            inst["drop"][kindname] = [int(k) for k in inst["drop"].get(kindname, [])]
+    return inst
 
 
 def inst_len(inst: dict, c: str) -> int:
@@ -316,7 +397,7 @@ def make_class(spec: dict):
         "region": (irdl.SameVariadicRegionSize, irdl.AttrSizedRegionSegments),
         "successor": (irdl.SameVariadicSuccessorSize, irdl.AttrSizedSuccessorSegments),
     }
-    for c in CONSTRUCTS:
+    for c in spec.get("opt_order") or CONSTRUCTS:
         o = spec[c]["opt"]
         if o == "same":
             options.append(opt_cls[c][0]())
@@ -350,12 +431,14 @@ def make_class(spec: dict):
     for i, (kind, _rc, _sb) in enumerate(spec["successor"]["segs"]):
         f = {"s": irdl.successor_def, "o": irdl.opt_successor_def, "v": irdl.var_successor_def}[kind]
         ns[f"s{i}"] = f()
-    for name, optional, attrc in spec["props"]:
+    for name, optional, attrc, default in pa_entries(spec, "props"):
         c = mk_attrc(attrc.split(":"), variant)
-        ns[f"p{name}"] = irdl.opt_prop_def(c) if optional else irdl.prop_def(c)
-    for name, optional, attrc in spec["attrs"]:
+        kw = {} if default is None else {"default_value": X.T[default]}
+        ns[f"p{name}"] = irdl.opt_prop_def(c, **kw) if optional else irdl.prop_def(c, **kw)
+    for name, optional, attrc, default in pa_entries(spec, "attrs"):
         c = mk_attrc(attrc.split(":"), variant)
-        ns[f"a{name}"] = irdl.opt_attr_def(c) if optional else irdl.attr_def(c)
+        kw = {} if default is None else {"default_value": X.T[default]}
+        ns[f"a{name}"] = irdl.opt_attr_def(c, **kw) if optional else irdl.attr_def(c, **kw)
     cls = type(f"C10Op{_class_counter[0]}", (irdl.IRDLOperation,), ns)
     return irdl.irdl_op_definition(cls)
 
@@ -373,9 +456,8 @@ def mk_sattr(sattr: list):
     return b.DenseArrayBase.from_list(b.i32 if sattr[0] == "i32" else b.i64, list(sattr[1]))
 
 
-def make_instance(cls, spec: dict, inst: dict):
-    """Op.create(...) of the generic (unchecked) constructor."""
-    X.load()
+def make_values(inst: dict):
+    """fresh IR objects for the lists of `inst`"""
     counters = {t: 0 for t in range(NTYPES)}
     operands = []
     for t in inst["operand"]["tys"]:
@@ -388,14 +470,96 @@ def make_instance(cls, spec: dict, inst: dict):
     regions = [X.Region([X.Block(arg_types=[X.T[t] for t in args] if i == 0 else []) for i in range(blocks)])
                for blocks, args in inst["region"]["regs"]]
     successors = [X.Block() for _ in range(inst["successor"]["n"])]
+    return operands, result_types, regions, successors
+
+
+def make_instance(cls, spec: dict, inst: dict):
+    """The history of an operation object: Op.create(...) of the generic (unchecked) constructor from
+    the lists and dictionaries of `inst`, then the deletions of inst["drop"]."""
+    X.load()
+    operands, result_types, regions, successors = make_values(inst)
     props = {f"p{k}": X.T[v] for k, v in inst["props"].items()}
     attrs = {f"a{k}": X.T[v] for k, v in inst["attrs"].items()}
     for c in CONSTRUCTS:
         a = mk_sattr(inst[c]["sattr"])
         if a is not None:
-            (props if spec[c].get("as_prop") else attrs)[SEG_ATTR_NAME[c]] = a
-    return cls.create(operands=operands, result_types=result_types, regions=regions,
-                      successors=successors, properties=props, attributes=attrs)
+            (props if in_props(spec, c) else attrs)[SEG_ATTR_NAME[c]] = a
+        if inst[c].get("stray") is not None:
+            # the same name in the OTHER dictionary
+            (attrs if in_props(spec, c) else props)[SEG_ATTR_NAME[c]] = mk_sattr(inst[c]["stray"])
+    op = cls.create(operands=operands, result_types=result_types, regions=regions,
+                    successors=successors, properties=props, attributes=attrs)
+    return op
+
+
+def apply_drops(op, spec: dict, inst: dict) -> None:
+    drop = inst.get("drop") or {}
+    for k in drop.get("props", []):
+        op.properties.pop(f"p{k}", None)
+    for k in drop.get("attrs", []):
+        op.attributes.pop(f"a{k}", None)
+    for c in drop.get("sizes", []):
+        (op.properties if in_props(spec, c) else op.attributes).pop(SEG_ATTR_NAME[c], None)
+
+
+def ty_index(a) -> int:
+    for i, t in enumerate(X.T):
+        if a == t:
+            return i
+    return -1
+
+
+def obs_sattr(a) -> list:
+    if a is None:
+        return ["missing"]
+    if not isinstance(a, X.builtin.DenseArrayBase):
+        return ["notdense"]
+    return ["i32" if a.elt_type == X.builtin.i32 else "i64", [int(x) for x in a.get_values()]]
+
+
+def observe_state(op, spec: dict) -> dict:
+    """the state of the operation object, in the vocabulary of `inst` (what the reference judges)"""
+    st: dict[str, Any] = {
+        "operand": {"tys": [ty_index(v.type) for v in op.operands]},
+        "result": {"tys": [ty_index(v.type) for v in op.results]},
+        "region": {"regs": [[len(r.blocks), [ty_index(a.type) for a in r.blocks[0].args] if r.blocks else []]
+                            for r in op.regions]},
+        "successor": {"n": len(op.successors)},
+    }
+    for c in CONSTRUCTS:
+        decl, other = (op.properties, op.attributes) if in_props(spec, c) else (op.attributes, op.properties)
+        st[c]["sattr"] = obs_sattr(decl.get(SEG_ATTR_NAME[c]))
+        if SEG_ATTR_NAME[c] in other:
+            st[c]["stray"] = obs_sattr(other[SEG_ATTR_NAME[c]])
+    names = set(SEG_ATTR_NAME.values())
+    st["props"] = {(int(k[1:]) if k[1:].isdigit() else k): ty_index(v) for k, v in op.properties.items() if k not in names}
+    st["attrs"] = {(int(k[1:]) if k[1:].isdigit() else k): ty_index(v) for k, v in op.attributes.items() if k not in names}
+    return st
+
+
+def show_dict(d: dict) -> str:
+    return ",".join(f"{k}={d[k]}" for k in sorted(d)) or "-"
+
+
+def show_raw(op) -> str:
+    out = []
+    for tag, d in (("p", op.properties), ("a", op.attributes)):
+        for c in CONSTRUCTS:
+            if SEG_ATTR_NAME[c] in d:
+                out.append(f"{tag}.{c}={sattr_tok(obs_sattr(d[SEG_ATTR_NAME[c]]))}")
+    return " ".join(out) or "-"
+
+
+def obs_dict_access(op, spec: dict, kindname: str) -> str:
+    out = []
+    for name, _o, _c, _d in pa_entries(spec, kindname):
+        try:
+            v = getattr(op, f"{kindname[0]}{name}")
+        except Exception as e:  # noqa: BLE001
+            out.append(core.exc_name(e))
+            continue
+        out.append("none" if v is None else str(ty_index(v)))
+    return "|".join(out) if out else "-"
 
 
 def constructs_of(op, c: str):
@@ -827,9 +991,22 @@ def gen_def(ctx: core.Ctx) -> dict:
         opt = r.choice(("same", "attr", "attr")) if nvar >= 2 else r.choice(("none", "none", "none", "same", "attr"))
         segs = [[k, rangec(k, c == "region") if c != "successor" else "R:p:any", (c == "region" and r.random() < 0.3)] for k in kinds]
         spec[c] = {"opt": opt, "segs": segs, "as_prop": r.random() < 0.5}
-    spec["props"] = [[i, r.random() < 0.4, attrc()] for i in range(r.choice((0, 0, 1, 2)))]
-    spec["attrs"] = [[i, r.random() < 0.4, attrc()] for i in range(r.choice((0, 0, 1, 2)))]
+    def entry(i: int) -> list:
+        optional, ac = r.random() < 0.4, attrc()
+        default = None
+        if r.random() < 0.5:
+            # mostly a default that satisfies the constraint, sometimes any value
+            vals = accepted_values(ac.split(":")[1])
+            default = r.choice(vals) if vals and r.random() < 0.85 else r.randrange(NTYPES)
+        return [i, optional, ac, default]
+
+    spec["props"] = [entry(i) for i in range(r.choice((0, 0, 1, 2)))]
+    spec["attrs"] = [entry(i) for i in range(r.choice((0, 0, 1, 2)))]
     spec["variant"] = r.randint(0, 5)
+    # every order of the options in irdl_options
+    order = list(CONSTRUCTS)
+    r.shuffle(order)
+    spec["opt_order"] = order
     return spec
 
 
@@ -888,7 +1065,14 @@ def gen_inst(ctx: core.Ctx, spec: dict) -> dict:
             inst[c] = {"n": sum(sizes), "sattr": sattr}
     for kindname in ("props", "attrs"):
         d = {}
-        for name, optional, attrc in spec[kindname]:
+        for name, optional, attrc, default in pa_entries(spec, kindname):
+            p = attrc.split(":")
+            if (not optional and default is not None and r.random() < 0.5
+                    and (p[0] == "p" or sigma.get(p[0], default) == default)):
+                # left to the constructor; a variable bound by the default is bound for the rest
+                if p[0] != "p":
+                    sigma[p[0]] = default
+                continue
             if not optional or r.random() < 0.6:
                 d[name] = elem(attrc.split(":"))
         inst[kindname] = d
@@ -902,6 +1086,35 @@ def mutate_inst(ctx: core.Ctx, spec: dict, inst: dict) -> dict:
     for _ in range(r.choice((1, 1, 2))):
         m = r.random()
         c = r.choice(CONSTRUCTS)
+        if r.random() < 0.22:
+            # second step of the history: an entry is removed AFTER construction -- every declared
+            # kind (required / optional, with / without default, segment sizes) and undeclared names
+            drop = inst.setdefault("drop", {"props": [], "attrs": [], "sizes": []})
+            x = r.random()
+            declared = [(kn, name) for kn in ("props", "attrs") for name, _o, _c, _d in pa_entries(spec, kn)]
+            if x < 0.7 and declared:
+                kn, name = r.choice(declared)
+                if name not in drop[kn]:
+                    drop[kn].append(name)
+            elif x < 0.85:
+                attr_cs = [cc for cc in CONSTRUCTS if spec[cc]["opt"] == "attr"]
+                if attr_cs:
+                    cc = r.choice(attr_cs)
+                    if cc not in drop["sizes"]:
+                        drop["sizes"].append(cc)
+            else:
+                kn = r.choice(("props", "attrs"))
+                name = r.randint(0, 3)
+                if name not in drop[kn]:
+                    drop[kn].append(name)
+            continue
+        if r.random() < 0.06:
+            # a size array under the right name in the wrong dictionary
+            valid = inst[c]["sattr"] if inst[c]["sattr"][0] == "i32" else ["i32", [1] * len(spec[c]["segs"])]
+            inst[c]["stray"] = [valid[0], list(valid[1])]
+            if r.random() < 0.5 and spec[c]["opt"] == "attr":
+                inst[c]["sattr"] = ["missing"]
+            continue
         if m < 0.25:
             cc = r.choice(("operand", "result"))
             if inst[cc]["tys"]:
@@ -963,26 +1176,35 @@ def mutate_inst(ctx: core.Ctx, spec: dict, inst: dict) -> dict:
     return inst
 
 
-def full_lines(spec: dict, inst: dict) -> list[str]:
+def def_lines(spec: dict) -> list[str]:
     lines = ["reset"]
     for c in CONSTRUCTS:
         cd = spec[c]
         if cd["opt"] != "none":
             lines.append(f"opt {c} {cd['opt']}")
+        if in_props(spec, c):
+            lines.append(f"store {c} prop")
         for kind, rc, sb in cd["segs"]:
             lines.append(f"seg {c} {kind} {rc}" + (" sb" if sb else ""))
-    for name, optional, attrc in spec["props"]:
-        lines.append(f"pdef {name} {'opt' if optional else 'req'} {attrc}")
-    for name, optional, attrc in spec["attrs"]:
-        lines.append(f"adef {name} {'opt' if optional else 'req'} {attrc}")
+    for name, optional, attrc, default in pa_entries(spec, "props"):
+        lines.append(f"pdef {name} {'opt' if optional else 'req'} {attrc}" + ("" if default is None else f" {default}"))
+    for name, optional, attrc, default in pa_entries(spec, "attrs"):
+        lines.append(f"adef {name} {'opt' if optional else 'req'} {attrc}" + ("" if default is None else f" {default}"))
+    return lines
+
+
+def list_lines(inst: dict) -> list[str]:
+    lines = []
     for c in ("operand", "result"):
         lines.append(f"vals {c} " + (",".join(map(str, inst[c]["tys"])) or "-"))
     for blocks, args in inst["region"]["regs"]:
         lines.append(f"region {blocks} " + (",".join(map(str, args)) or "-"))
     lines.append(f"nsucc {inst['successor']['n']}")
-    for c in CONSTRUCTS:
-        if inst[c]["sattr"][0] != "missing":
-            lines.append(f"sattr {c} {sattr_tok(inst[c]['sattr'])}")
+    return lines
+
+
+def dict_lines(inst: dict) -> list[str]:
+    lines = []
     for name, t in inst["props"].items():
         lines.append(f"prop {name} {t}")
     for name, t in inst["attrs"].items():
@@ -990,40 +1212,87 @@ def full_lines(spec: dict, inst: dict) -> list[str]:
     return lines
 
 
+OBS_LINES = ["dict props", "dict attrs", "verify", "acc operand", "acc result", "acc region", "acc successor",
+             "dacc props", "dacc attrs"]
+
+
+def observe_lines(op, spec: dict) -> tuple[list[str], Any]:
+    """the observations answering OBS_LINES, and the exception of verify_()"""
+    st = observe_state(op, spec)
+    v, exc = obs_verify(op)
+    obs = [show_dict({k: x for k, x in st["props"].items() if isinstance(k, int)}),
+           show_dict({k: x for k, x in st["attrs"].items() if isinstance(k, int)}), v]
+    for c in CONSTRUCTS:
+        obs.append(obs_access(op, c, len(spec[c]["segs"]))[0])
+    obs.append(obs_dict_access(op, spec, "props"))
+    obs.append(obs_dict_access(op, spec, "attrs"))
+    return obs, exc
+
+
+def full_lines(spec: dict, inst: dict) -> list[str]:
+    """definition, construction from the lists and dictionaries, then the deletions"""
+    lines = def_lines(spec) + list_lines(inst)
+    for c in CONSTRUCTS:
+        if inst[c]["sattr"][0] != "missing":
+            lines.append(f"sattr {c} {sattr_tok(inst[c]['sattr'])}")
+        if inst[c].get("stray") is not None:
+            lines.append(f"rsattr {c} {'attr' if in_props(spec, c) else 'prop'} {sattr_tok(inst[c]['stray'])}")
+    lines += dict_lines(inst)
+    lines.append("init")
+    return lines
+
+
+def drop_lines(spec: dict, inst: dict) -> list[str]:
+    drop = inst.get("drop") or {}
+    lines = [f"del prop {k}" for k in drop.get("props", [])] + [f"del attr {k}" for k in drop.get("attrs", [])]
+    lines += [f"rdel {c} {'prop' if in_props(spec, c) else 'attr'}" for c in drop.get("sizes", [])]
+    return lines
+
+
 def full_run_case(spec: dict, inst: dict, cls=None) -> tuple[list[str], list[str], Any, Any]:
-    """-> (model input lines, impl observation lines, op, verify exception)"""
+    """-> (model input lines, impl observation lines, op, verify exception); the last len(OBS_LINES)
+    observations are those of OBS_LINES, preceded by the two dictionaries right after construction"""
     if cls is None:
         cls = make_class(spec)
     lines = full_lines(spec, inst)
     obs = ["ok"] * len(lines)
     op = make_instance(cls, spec, inst)
-    v, exc = obs_verify(op)
-    lines.append("verify")
-    obs.append(v)
-    for c in CONSTRUCTS:
-        lines.append(f"acc {c}")
-        obs.append(obs_access(op, c, len(spec[c]["segs"]))[0])
+    st0 = observe_state(op, spec)
+    lines += ["dict props", "dict attrs"]
+    obs += [show_dict({k: x for k, x in st0[kn].items() if isinstance(k, int)}) for kn in ("props", "attrs")]
+    dl = drop_lines(spec, inst)
+    apply_drops(op, spec, inst)
+    lines += dl
+    obs += ["ok"] * len(dl)
+    o2, exc = observe_lines(op, spec)
+    lines += OBS_LINES
+    obs += o2
     return lines, obs, op, exc
 
 
-def oracle_full(ctx: core.Ctx, spec: dict, inst: dict, obs: list[str], exc) -> None:
-    passes, segs = ref_verify(spec, inst)
+def oracle_state(ctx: core.Ctx, spec: dict, state: dict, obs: list[str], exc, case: dict) -> None:
+    """the first sentence of the property on the operation STATE `state` (as observed on the object at
+    verification time): verify_() passes exactly when the reference finds the segmentations and one
+    assignment; on a passing operation the segment accessors give the declared segments and the
+    dictionary accessors give the stored values"""
+    passes, segs = ref_verify(spec, state)
     if any(s == "ambiguous" for s in segs.values()):
         return
-    v = obs[-5]
-    case = {"part": "full", "spec": spec, "inst": inst}
+    o = dict(zip(OBS_LINES, obs[-len(OBS_LINES):]))
+    v = o["verify"]
+    shown = obs[-len(OBS_LINES):]
     if passes and v != "ok":
         ctx.fail(exc_site(exc) if exc is not None else "xdsl.irdl.operations.OpDef.verify",
                  "operation satisfying its definition rejected (" + v.replace("raise ", "") + ")", case,
                  f"reference: all lists split into the declared segments and every piece satisfies its constraint; "
-                 f"verify_() gives {v}: {str(exc)[:160]}", obs[-5:], "ok")
+                 f"verify_() gives {v}: {str(exc)[:160]}", shown, "ok")
         return
     if not passes and v == "ok":
         bad_c = [c for c in CONSTRUCTS if segs[c] is None]
         if bad_c:
             c = bad_c[0]
             if spec[c]["opt"] == "attr":
-                vals = inst[c]["sattr"][1] if inst[c]["sattr"][0] == "i32" else []
+                vals = state[c]["sattr"][1] if state[c]["sattr"][0] == "i32" else []
                 kinds = "".join(s[0] for s in spec[c]["segs"])
                 if len(vals) == len(kinds) and any(x < 0 for x in vals):
                     sig = "negative segment size accepted"
@@ -1032,22 +1301,44 @@ def oracle_full(ctx: core.Ctx, spec: dict, inst: dict, obs: list[str], exc) -> N
                 site = "xdsl.irdl.operations.verify_variadic_attr_size"
             else:
                 sig, site = "list length with no valid same-size segmentation accepted", "xdsl.irdl.operations.verify_variadic_same_size"
+            desc = "verify_() passes although the reference finds no valid segmentation"
+        elif ref_required_absent(spec, state):
+            sig, site = "operation lacking a non-optional property/attribute accepted", "xdsl.irdl.operations.OpDef.verify"
+            desc = (f"verify_() passes although the declared non-optional {', '.join(ref_required_absent(spec, state))} "
+                    f"has no value on the operation (dictionary accessors: {o['dacc props']} / {o['dacc attrs']})")
         else:
             sig, site = "operation violating a constraint / variable consistency accepted", "xdsl.irdl.operations.OpDef.verify"
-        ctx.fail(site, sig, case, "verify_() passes although the reference finds no valid segmentation/assignment", obs[-5:], "raise VerifyException")
+            desc = "verify_() passes although the reference finds no valid segmentation/assignment"
+        ctx.fail(site, sig, case, desc, shown, "raise VerifyException")
         return
     if passes:
-        for i, c in enumerate(CONSTRUCTS):
+        for c in CONSTRUCTS:
             kinds = "".join(s[0] for s in spec[c]["segs"])
-            expected = show_segments(kinds, split(list(range(inst_len(inst, c))), segs[c]))
-            if obs[-4 + i] != expected:
+            expected = show_segments(kinds, split(list(range(inst_len(state, c))), segs[c]))
+            if o[f"acc {c}"] != expected:
                 ctx.fail("xdsl.irdl.operations.irdl_op_arg_definition", "accessor result differs from the declared segment", case,
-                         f"{c} accessors give {obs[-4 + i]}, declared segments are {expected}", obs[-5:], expected)
+                         f"{c} accessors give {o[f'acc {c}']}, declared segments are {expected}", shown, expected)
+                return
+        for kindname in ("props", "attrs"):
+            expected = ref_dict_access(spec, state, kindname)
+            if o[f"dacc {kindname}"] != expected:
+                ctx.fail("xdsl.irdl.operations.get_accessors_from_op_def",
+                         "dictionary accessor of a verified operation differs from the stored value", case,
+                         f"{kindname} accessors give {o[f'dacc {kindname}']}, stored values (absent optional: default) are {expected}",
+                         shown, expected)
                 return
 
 
+def oracle_full(ctx: core.Ctx, spec: dict, inst: dict, obs: list[str], exc, op=None) -> None:
+    case = {"part": "full", "spec": spec, "inst": inst}
+    if op is None:
+        op = make_instance(make_class(spec), spec, inst)
+        apply_drops(op, spec, inst)
+    oracle_state(ctx, spec, observe_state(op, spec), obs, exc, case)
+
+
 def shrink_full(spec: dict, inst: dict, still_fails) -> tuple[dict, dict]:
-    """greedy: drop constructs / props / attrs that are not needed for the failure"""
+    """greedy: drop constructs / props / attrs / history steps that are not needed for the failure"""
     import copy
     cur_s, cur_i = spec, inst
     for c in CONSTRUCTS:
@@ -1059,22 +1350,42 @@ def shrink_full(spec: dict, inst: dict, still_fails) -> tuple[dict, dict]:
             i2[c] = {"regs": [], "sattr": ["missing"]}
         else:
             i2[c] = {"n": 0, "sattr": ["missing"]}
+        if "drop" in i2:
+            i2["drop"]["sizes"] = [x for x in i2["drop"].get("sizes", []) if x != c]
         if still_fails(s2, i2):
             cur_s, cur_i = s2, i2
     for kindname in ("props", "attrs"):
         s2, i2 = copy.deepcopy(cur_s), copy.deepcopy(cur_i)
         s2[kindname], i2[kindname] = [], {}
+        if "drop" in i2:
+            i2["drop"][kindname] = []
         if still_fails(s2, i2):
             cur_s, cur_i = s2, i2
+        # one entry at a time
+        for e in list(cur_s[kindname]):
+            s2, i2 = copy.deepcopy(cur_s), copy.deepcopy(cur_i)
+            s2[kindname] = [x for x in s2[kindname] if x[0] != e[0]]
+            i2[kindname].pop(e[0], None)
+            if "drop" in i2:
+                i2["drop"][kindname] = [x for x in i2["drop"].get(kindname, []) if x != e[0]]
+            if still_fails(s2, i2):
+                cur_s, cur_i = s2, i2
+    if "drop" in cur_i:
+        for key in ("props", "attrs", "sizes"):
+            for x in list(cur_i["drop"].get(key, [])):
+                i2 = copy.deepcopy(cur_i)
+                i2["drop"][key].remove(x)
+                if still_fails(cur_s, i2):
+                    cur_i = i2
     return cur_s, cur_i
 
 
-def run_full(ctx: core.Ctx, ndefs: int, ninst: int) -> None:
+def run_full(ctx: core.Ctx, ndefs: int, ninst: int, nbuild: int = 2) -> None:
     X.load()
     lines: list[str] = []
     impl: list[str] = []
     starts: list[int] = []
-    nd = 0
+    nd = nb = 0
     for _ in range(ndefs):
         if ctx.time_left() < 15:
             break
@@ -1090,15 +1401,26 @@ def run_full(ctx: core.Ctx, ndefs: int, ninst: int) -> None:
         base_inst = gen_inst(ctx, spec)
         for k in range(ninst):
             inst = base_inst if k == 0 else (gen_inst(ctx, spec) if ctx.rng.random() < 0.3 else mutate_inst(ctx, spec, base_inst))
-            ls, obs, _op, exc = full_run_case(spec, inst, cls)
+            ls, obs, op, exc = full_run_case(spec, inst, cls)
             ctx.ev()
-            if shared or any(inst[c]["sattr"][0] != "missing" for c in CONSTRUCTS):
+            if shared or any(inst[c]["sattr"][0] != "missing" for c in CONSTRUCTS) or inst.get("drop"):
                 ctx.nt(("full", core.json.dumps([spec, inst], sort_keys=True)))
-            ctx.count("full.verify." + obs[-5].replace("raise ", ""))
-            nfail = len(ctx.failures)
-            oracle_full(ctx, spec, inst, obs, exc)
-            if len(ctx.failures) > nfail or (ctx.failures and ctx.failures[-1].case.get("inst") is inst):
-                pass
+            ctx.count("full.verify." + obs[-len(OBS_LINES) + 2].replace("raise ", ""))
+            if inst.get("drop"):
+                ctx.count("full.with_deletions")
+            oracle_full(ctx, spec, inst, obs, exc, op)
+            start = len(lines)
+            lines.extend(ls)
+            impl.extend(obs)
+            starts.extend([start] * len(ls))
+        # the generated constructor on the same definition (all constructs, options and storage kinds at once)
+        for k in range(nbuild):
+            binst = gen_inst(ctx, spec) if k else base_inst
+            bcase = gen_build_case(ctx, spec, binst)
+            if bcase is None:
+                continue
+            nb += 1
+            ls, obs = buildop_run_case(ctx, spec, bcase["inst"], bcase["shapes"], cls)
             start = len(lines)
             lines.extend(ls)
             impl.extend(obs)
@@ -1106,6 +1428,7 @@ def run_full(ctx: core.Ctx, ndefs: int, ninst: int) -> None:
         if nd <= 2:
             ctx.sample({"part": "full", "spec": spec, "inst": base_inst})
     ctx.count("full.definitions", nd)
+    ctx.count("full.constructor_calls", nb)
     # shrink reported full cases
     for f in ctx.failures:
         if f.kind == "failing-input" and isinstance(f.case, dict) and f.case.get("part") == "full" and f.case.get("inst"):
@@ -1114,14 +1437,311 @@ def run_full(ctx: core.Ctx, ndefs: int, ninst: int) -> None:
             def still(s2, i2, sig=sig):
                 try:
                     probe = core.Ctx("C10", ctx.tier, 0, META)
-                    _ls, obs2, _op, exc2 = full_run_case(s2, i2)
-                    oracle_full(probe, s2, i2, obs2, exc2)
+                    _ls, obs2, op2, exc2 = full_run_case(s2, i2)
+                    oracle_full(probe, s2, i2, obs2, exc2, op2)
                     return any((g.call_site, g.signature) == sig for g in probe.failures)
                 except Exception:  # noqa: BLE001
                     return False
             s2, i2 = shrink_full(f.case["spec"], f.case["inst"], still)
             f.case = {"part": "full", "spec": s2, "inst": i2}
+            try:
+                probe = core.Ctx("C10", ctx.tier, 0, META)
+                _ls, obs2, op2, exc2 = full_run_case(s2, i2)
+                oracle_full(probe, s2, i2, obs2, exc2, op2)
+                for g in probe.failures:
+                    if (g.call_site, g.signature) == sig:
+                        f.description, f.impl_obs, f.model_obs = g.description, g.impl_obs, g.model_obs
+            except Exception:  # noqa: BLE001
+                pass
+        if f.kind == "failing-input" and isinstance(f.case, dict) and f.case.get("part") == "buildop":
+            shrink_buildop(ctx, f)
     compare_model(ctx, "full", lines, impl, starts)
+
+
+# ---------------------------------------------------------------------------------------------
+# Part E: default values -- construction, deletion, verification, dictionary accessors (exhaustive)
+# ---------------------------------------------------------------------------------------------
+
+def empty_spec() -> dict:
+    spec: dict[str, Any] = {c: {"opt": "none", "segs": [], "as_prop": False} for c in CONSTRUCTS}
+    spec["props"], spec["attrs"], spec["variant"] = [], [], 0
+    return spec
+
+
+def empty_inst() -> dict:
+    return {"operand": {"tys": [], "sattr": ["missing"]}, "result": {"tys": [], "sattr": ["missing"]},
+            "region": {"regs": [], "sattr": ["missing"]}, "successor": {"n": 0, "sattr": ["missing"]},
+            "props": {}, "attrs": {}}
+
+
+def run_dict(ctx: core.Ctx) -> None:
+    """Every declared kind of property and attribute (required / optional) x default (none, satisfying,
+    violating) x constraint (plain, variable shared with a second entry) x value given to the
+    constructor (absent, satisfying, other) x entry deleted after construction or not."""
+    X.load()
+    lines: list[str] = []
+    impl: list[str] = []
+    starts: list[int] = []
+    n = 0
+    for kindname, optional, attrc, default, second in itertools.product(
+            ("props", "attrs"), (False, True), ("p:eq.0", "v0:of.0.1"), (None, 0, 1), (None, "props", "attrs")):
+        if second is not None and attrc[0] == "p":
+            continue
+        spec = empty_spec()
+        spec[kindname].append([0, optional, attrc, default])
+        if second is not None:
+            spec[second].append([1, False, "v0:of.0.1", None])
+        spec["variant"] = n % 6
+        cls = make_class(spec)
+        for passed, drop, second_val in itertools.product((None, 0, 1, 3), (False, True),
+                                                         (0, 1) if second is not None else (None,)):
+            inst = empty_inst()
+            if passed is not None:
+                inst[kindname][0] = passed
+            if second is not None:
+                inst[second][1] = second_val
+            if drop:
+                inst["drop"] = {"props": [], "attrs": [], "sizes": []}
+                inst["drop"][kindname].append(0)
+            ls, obs, op, exc = full_run_case(spec, inst, cls)
+            ctx.ev()
+            ctx.nt(("dict", kindname, optional, attrc, default, second, passed, drop, second_val))
+            n += 1
+            oracle_full(ctx, spec, inst, obs, exc, op)
+            start = len(lines)
+            lines.extend(ls)
+            impl.extend(obs)
+            starts.extend([start] * len(ls))
+    ctx.count("dict.cases", n)
+    compare_model(ctx, "dict", lines, impl, starts)
+
+
+# ---------------------------------------------------------------------------------------------
+# Part F: the generated constructor on whole definitions: every combination of options and
+# storage kinds (as_property per option), every option order
+# ---------------------------------------------------------------------------------------------
+
+def shapes_for(ctx: core.Ctx | None, kinds: str, sizes) -> list[str]:
+    out = []
+    for k, sz in zip(kinds, sizes):
+        alt = ctx is not None and ctx.rng.random() < 0.5
+        if k == "v":
+            out.append(f"L{sz}")
+        elif sz == 0:
+            out.append("L0" if alt else "N")
+        else:
+            out.append("L1" if alt else "1")
+    return out
+
+
+def gen_build_case(ctx: core.Ctx, spec: dict, inst: dict) -> dict | None:
+    """constructor arguments whose concatenation gives the lists of `inst`"""
+    _p, segs = ref_verify(spec, inst)
+    if any(not isinstance(segs[c], tuple) for c in CONSTRUCTS):
+        return None
+    shapes = {}
+    for c in CONSTRUCTS:
+        kinds = "".join(s[0] for s in spec[c]["segs"])
+        sh = shapes_for(ctx, kinds, segs[c])
+        if sh and ctx.rng.random() < 0.05:
+            # same length, possibly the wrong form for the kind (None for a variadic result, [] for a single …)
+            i = ctx.rng.randrange(len(sh))
+            sh[i] = {"N": "L0", "L0": "N", "1": "L1", "L1": "1"}.get(sh[i], sh[i])
+        shapes[c] = sh
+    import copy
+    inst = copy.deepcopy(inst)
+    inst.pop("drop", None)
+    return {"inst": inst, "shapes": shapes}
+
+
+def shape_args(flat: list, shapes: list[str]) -> list:
+    args, pos = [], 0
+    for sh in shapes:
+        if sh == "N":
+            args.append(None)
+        elif sh == "1":
+            args.append(flat[pos])
+            pos += 1
+        else:
+            k = int(sh[1:])
+            args.append(list(flat[pos: pos + k]))
+            pos += k
+    return args
+
+
+def buildop_run_case(ctx: core.Ctx, spec: dict, inst: dict, shapes: dict, cls=None) -> tuple[list[str], list[str]]:
+    """Op.build(operands=…, result_types=…, regions=…, successors=…, properties=…, attributes=…) on a whole
+    definition + direct oracle (built operations verify, accessors give back the arguments) + model lines"""
+    if cls is None:
+        cls = make_class(spec)
+    case = {"part": "buildop", "spec": spec, "inst": inst, "shapes": shapes}
+    lines = def_lines(spec) + list_lines(inst) + dict_lines(inst)
+    for c in CONSTRUCTS:
+        lines.append(f"bshape {c} " + " ".join(shapes[c]))
+    obs = ["ok"] * len(lines)
+    lines.append("buildop " + " ".join(spec.get("opt_order") or CONSTRUCTS))
+    ctx.ev()
+    n_attr = [c for c in CONSTRUCTS if spec[c]["opt"] == "attr"]
+    ctx.nt(("buildop", core.json.dumps([spec, inst, shapes], sort_keys=True)))
+    if len({in_props(spec, c) for c in n_attr}) == 2:
+        ctx.count("buildop.mixed_storage")
+    kinds = {c: "".join(s[0] for s in spec[c]["segs"]) for c in CONSTRUCTS}
+    satisfying = all(len(shapes[c]) == len(kinds[c]) and all(arg_satisfies(k, sh) for k, sh in zip(kinds[c], shapes[c]))
+                     for c in CONSTRUCTS)
+    operands, result_types, regions, successors = make_values(inst)
+    flat = {"operand": operands, "result": result_types, "region": regions, "successor": successors}
+    props = {f"p{k}": X.T[v] for k, v in inst["props"].items()}
+    attrs = {f"a{k}": X.T[v] for k, v in inst["attrs"].items()}
+    try:
+        op = cls.build(operands=shape_args(operands, shapes["operand"]), result_types=shape_args(result_types, shapes["result"]),
+                       regions=shape_args(regions, shapes["region"]), successors=shape_args(successors, shapes["successor"]),
+                       properties=props, attributes=attrs)
+    except ValueError as e:
+        obs.append("err")
+        if satisfying:
+            ctx.fail("xdsl.irdl.operations.irdl_build_arg_list", "arguments satisfying the definition rejected", case,
+                     f"constructor arguments {shapes} for segments {kinds}: ValueError {str(e)[:120]}", "err", "ok")
+        return lines, obs
+    except Exception as e:  # noqa: BLE001
+        obs.append("raise " + core.exc_name(e))
+        if satisfying:
+            ctx.fail(exc_site(e), "constructor raises " + core.exc_name(e), case,
+                     f"constructor arguments {shapes} for segments {kinds}: {e!r}", obs[-1], "ok")
+        return lines, obs
+    obs.append("ok")
+    lines.append("rsizes")
+    obs.append(show_raw(op))
+    o2, exc = observe_lines(op, spec)
+    lines += OBS_LINES
+    obs += o2
+    o = dict(zip(OBS_LINES, o2))
+    shown = [obs[-len(OBS_LINES) - 1]] + o2
+    # (1) the first sentence on the object as built
+    nfail = len(ctx.failures)
+    oracle_state(ctx, spec, observe_state(op, spec), obs, exc, case)
+    if len(ctx.failures) > nfail:
+        return lines, obs
+    # (2) "operations built through the generated constructor from arguments that satisfy the definition
+    # always verify, and the generated accessors return exactly the declared segments"
+    intended = dict(inst, props=ref_fill(spec, "props", inst["props"]), attrs=ref_fill(spec, "attrs", inst["attrs"]))
+    passes, segs = ref_verify(spec, intended)
+    if not satisfying or not passes:
+        return lines, obs
+    same_lists = (len(op.operands) == len(operands) and all(a is b for a, b in zip(op.operands, operands))
+                  and [r.type for r in op.results] == result_types
+                  and len(op.regions) == len(regions) and all(a is b for a, b in zip(op.regions, regions))
+                  and len(op.successors) == len(successors) and all(a is b for a, b in zip(op.successors, successors)))
+    if not same_lists:
+        ctx.fail("xdsl.irdl.operations.irdl_op_init", "lists of a built operation differ from its arguments", case,
+                 "operands/results/regions/successors of the built operation are not the concatenation of the arguments",
+                 shown, "the arguments in order")
+    elif o["verify"] != "ok":
+        ctx.fail("xdsl.irdl.operations.irdl_op_init", "built operation does not verify", case,
+                 f"arguments {shapes} satisfy the definition (segments {kinds}, options "
+                 f"{ {c: (spec[c]['opt'], 'property' if in_props(spec, c) else 'attribute') for c in n_attr} }) but the built "
+                 f"operation gives {o['verify']}: {str(exc)[:140]}; stored size arrays: {shown[0]}", shown, "ok")
+    else:
+        for c in CONSTRUCTS:
+            expected = show_segments(kinds[c], split(list(range(len(flat[c]))), segs[c]))
+            if o[f"acc {c}"] != expected:
+                ctx.fail("xdsl.irdl.operations.irdl_op_arg_definition", "accessors of a built operation differ from its arguments",
+                         case, f"{c}: accessors {o[f'acc {c}']}, arguments {expected}", shown, expected)
+                break
+    return lines, obs
+
+
+def shrink_buildop(ctx: core.Ctx, f) -> None:
+    sig = (f.call_site, f.signature)
+    shapes0 = f.case["shapes"]
+
+    def shapes_of(s2, i2):
+        return {c: (shapes0[c] if s2[c]["segs"] else []) for c in CONSTRUCTS}
+
+    def still(s2, i2):
+        try:
+            probe = core.Ctx("C10", ctx.tier, 0, META)
+            buildop_run_case(probe, s2, i2, shapes_of(s2, i2))
+            return any((g.call_site, g.signature) == sig for g in probe.failures)
+        except Exception:  # noqa: BLE001
+            return False
+    s2, i2 = shrink_full(f.case["spec"], f.case["inst"], still)
+    f.case = {"part": "buildop", "spec": s2, "inst": i2, "shapes": shapes_of(s2, i2)}
+    probe = core.Ctx("C10", ctx.tier, 0, META)
+    try:
+        buildop_run_case(probe, s2, i2, f.case["shapes"])
+    except Exception:  # noqa: BLE001
+        return
+    for g in probe.failures:
+        if (g.call_site, g.signature) == sig:
+            f.description, f.impl_obs, f.model_obs = g.description, g.impl_obs, g.model_obs
+
+
+BUILDOP_CHOICES = {"plain": ("none", "s", False), "same": ("same", "vv", False),
+                   "attrA": ("attr", "vo", False), "attrP": ("attr", "vo", True)}
+
+
+def run_buildop(ctx: core.Ctx, all_orders: bool) -> None:
+    """every assignment of {no option, same-size, attribute-sized stored as attribute, attribute-sized
+    stored as property} to the four constructs x option orders x two argument vectors"""
+    X.load()
+    lines: list[str] = []
+    impl: list[str] = []
+    starts: list[int] = []
+    ncls = ncase = 0
+    for combo in itertools.product(BUILDOP_CHOICES, repeat=4):
+        if ctx.time_left() < 15:
+            break
+        with_opt = [c for c, ch in zip(CONSTRUCTS, combo) if ch != "plain"]
+        rest = [c for c in CONSTRUCTS if c not in with_opt]
+        if all_orders:
+            orders = [list(p) + rest for p in itertools.permutations(with_opt)]
+        else:
+            orders = [with_opt + rest]
+            if len(with_opt) >= 2:
+                orders.append(with_opt[::-1] + rest)
+            if len(with_opt) >= 3:
+                sh = list(with_opt)
+                ctx.rng.shuffle(sh)
+                if sh + rest not in orders:
+                    orders.append(sh + rest)
+        for order in orders:
+            spec = empty_spec()
+            for c, ch in zip(CONSTRUCTS, combo):
+                opt, kinds, as_prop = BUILDOP_CHOICES[ch]
+                spec[c] = {"opt": opt, "as_prop": as_prop,
+                           "segs": [[k, "S:p:any" if (k == "s" and c != "region") else "R:p:any", False] for k in kinds]}
+            spec["opt_order"] = order
+            spec["variant"] = ncls % 6
+            cls = make_class(spec)
+            ncls += 1
+            for variant in (0, 1):
+                inst = empty_inst()
+                shapes = {}
+                for c, ch in zip(CONSTRUCTS, combo):
+                    kinds = BUILDOP_CHOICES[ch][1]
+                    sizes = {"s": [1], "vv": [[2, 2], [1, 1]][variant], "vo": [[2, 0], [0, 1]][variant]}[kinds]
+                    n = sum(sizes)
+                    if c in ("operand", "result"):
+                        inst[c]["tys"] = [(i + variant) % NTYPES for i in range(n)]
+                    elif c == "region":
+                        inst[c]["regs"] = [[1, []] for _ in range(n)]
+                    else:
+                        inst[c]["n"] = n
+                    if BUILDOP_CHOICES[ch][0] == "attr":
+                        inst[c]["sattr"] = ["i32", list(sizes)]
+                    shapes[c] = shapes_for(None, kinds, sizes)
+                ls, obs = buildop_run_case(ctx, spec, inst, shapes, cls)
+                ncase += 1
+                start = len(lines)
+                lines.extend(ls)
+                impl.extend(obs)
+                starts.extend([start] * len(ls))
+    ctx.count("buildop.definitions", ncls)
+    ctx.count("buildop.calls", ncase)
+    for f in ctx.failures:
+        if f.kind == "failing-input" and isinstance(f.case, dict) and f.case.get("part") == "buildop":
+            shrink_buildop(ctx, f)
+    compare_model(ctx, "buildop", lines, impl, starts)
 
 
 # ---------------------------------------------------------------------------------------------
@@ -1275,7 +1895,11 @@ def run(ctx: core.Ctx) -> None:
         lap("seg")
         run_build(ctx, maxlen=3, nrandom=300)
         lap("build")
-        run_full(ctx, ndefs=1200, ninst=10)
+        run_dict(ctx)
+        lap("dict")
+        run_buildop(ctx, all_orders=False)
+        lap("buildop")
+        run_full(ctx, ndefs=1200, ninst=10, nbuild=2)
         lap("full")
         run_corpus(ctx, max_files=120, budget_s=12)
         lap("corpus")
@@ -1284,7 +1908,11 @@ def run(ctx: core.Ctx) -> None:
         lap("seg")
         run_build(ctx, maxlen=4, nrandom=5000)
         lap("build")
-        run_full(ctx, ndefs=20000, ninst=14)
+        run_dict(ctx)
+        lap("dict")
+        run_buildop(ctx, all_orders=True)
+        lap("buildop")
+        run_full(ctx, ndefs=20000, ninst=14, nbuild=4)
         lap("full")
         run_corpus(ctx, max_files=10_000, budget_s=240)
         lap("corpus")
@@ -1292,7 +1920,8 @@ def run(ctx: core.Ctx) -> None:
     ctx.exhaustive = True
     ctx.extra["exhaustive_scope"] = (
         "seg/build: all kind lists up to the stated length × options × list lengths × size vectors over -1..3 "
-        "(all four constructs for length ≤2, operands + one rotating construct beyond); full/corpus: random"
+        "(all four constructs for length ≤2, operands + one rotating construct beyond); dict: all 576 default-value "
+        "histories; buildop: all 256 option/storage assignments (thorough: × all option orders); full/corpus: random"
     )
 
 
@@ -1321,9 +1950,16 @@ def replay(ctx: core.Ctx, body: dict) -> int:
         probe.budget_s = 1e9
         check_build_case(probe, case["construct"], case["kinds"], case["opt"], tuple(case["shapes"]), lines, impl, cases)
     elif part == "full" and case.get("inst") is not None:
-        lines, impl, _op, exc = full_run_case(case["spec"], case["inst"])
-        oracle_full(probe, case["spec"], case["inst"], impl, exc)
-        print("reference (passes, segments):", ref_verify(case["spec"], case["inst"]))
+        inst = norm_inst(case["inst"])
+        lines, impl, op, exc = full_run_case(case["spec"], inst)
+        oracle_full(probe, case["spec"], inst, impl, exc, op)
+        state = observe_state(op, case["spec"])
+        print("operation state at verification time:", {k: state[k] for k in ("props", "attrs")},
+              {c: state[c] for c in CONSTRUCTS})
+        print("reference (passes, segments):", ref_verify(case["spec"], state))
+    elif part == "buildop":
+        probe.budget_s = 1e9
+        lines, impl = buildop_run_case(probe, case["spec"], norm_inst(case["inst"]), case["shapes"])
     elif part == "corpus":
         print("corpus case; re-run the check to re-find it in", case.get("file"))
         tok = sattr_tok(case["sattr"])
